@@ -397,6 +397,26 @@ static void check_parse(Ctx &c, const std::string &bytes)
         float gf = t.to_float(r2), gf0 = t.to_float();
         VF_ADD("ops", 4);
         VF_ADD("validated", 2);
+        {
+            // result objects that already hold the flags of an earlier conversion (a full match / a failure)
+            static const ST::string good = ST_LITERAL("1.5"), junk = ST_LITERAL("zz 1");
+            ST::conversion_result a1, a2, b1, b2;
+            (void)good.to_double(a1);
+            (void)good.to_float(a2);
+            (void)junk.to_double(b1);
+            (void)junk.to_float(b2);
+            (void)t.to_double(a1);
+            (void)t.to_float(a2);
+            (void)t.to_double(b1);
+            (void)t.to_float(b2);
+            VF_ADD("ops", 4);
+            if (a1.ok() != ok1 || b1.ok() != ok1 || a1.full_match() != full1 || b1.full_match() != full1)
+                c.fail("parse:to_double:reused-result-object", strf("to_double(result) on %s with a result object used before: ok=%d/%d full_match=%d/%d, expected %d %d",
+                                                                    vf::vis(bytes).c_str(), a1.ok(), b1.ok(), a1.full_match(), b1.full_match(), ok1, full1));
+            if (a2.ok() != ok2 || b2.ok() != ok2 || a2.full_match() != full2 || b2.full_match() != full2)
+                c.fail("parse:to_float:reused-result-object", strf("to_float(result) on %s with a result object used before: ok=%d/%d full_match=%d/%d, expected %d %d",
+                                                                   vf::vis(bytes).c_str(), a2.ok(), b2.ok(), a2.full_match(), b2.full_match(), ok2, full2));
+        }
         const char *tclass = bytes.empty() ? "empty" : c1 == 0 ? "nothing-consumed" : full1 ? "all-consumed" : "partly-consumed";
         const char *rclass = std::isnan(wd) ? "nan" : std::isinf(wd) ? "inf" : wd == 0 ? "zero" : "finite";
         vf::count_dyn(strf("out:parse:%s:%s", tclass, c1 ? rclass : "-"));
